@@ -579,7 +579,9 @@ impl<'de> Visitor<'de> for IDLValueVisitor {
         while let Some((key, value)) = visitor.next_entry()? {
             let id = match key {
                 IDLValue::Nat32(hash) => Label::Id(hash),
-                IDLValue::Text(name) if name == "_" => continue,
+                // A wire field the expected type does not have is delivered under the name "_" and
+                // decoded at `reserved`; a real field that happens to be called "_" must be kept.
+                IDLValue::Text(name) if name == "_" && value == IDLValue::Reserved => continue,
                 IDLValue::Text(name) => Label::Named(name),
                 _ => unreachable!(),
             };
